@@ -1,5 +1,7 @@
 import Ymq.Props.C04
+import Ymq.Props.C04Relations
 #print axioms Ymq.C04.sched_inv
 #print axioms Ymq.C04.sched_done_monotone
 #print axioms Ymq.C04.sched_bounded_work
 #print axioms Ymq.C04.sched_progress
+#print axioms Ymq.C04.sched_relations_valid
